@@ -112,6 +112,7 @@ HereDocs ==
   << [c |-> 1, op |-> "<<",  w |-> "E",      wm |-> <<"lit:E">>, body |-> "x\n",   bm |-> <<"lit:x\n">>, dl |-> "E",  dm |-> "lit:E"],
      [c |-> 1, op |-> "<<",  w |-> "E",      wm |-> <<"lit:E">>, body |-> "",      bm |-> <<>>,          dl |-> "E",  dm |-> "lit:E"],
      [c |-> 1, op |-> "<<",  w |-> "E",      wm |-> <<"lit:E">>, body |-> "\nx\n", bm |-> <<"lit:\nx\n">>, dl |-> "E", dm |-> "lit:E"],
+     [c |-> 1, op |-> "<<",  w |-> "E",      wm |-> <<"lit:E">>, body |-> "\n",    bm |-> <<"lit:\n">>,  dl |-> "E", dm |-> "lit:E"],
      [c |-> 1, op |-> "<<",  w |-> "EOF",    wm |-> <<"lit:EOF">>, body |-> "EO\nOF\n EOF\nEOFF\n", bm |-> <<"lit:EO\nOF\n EOF\nEOFF\n">>, dl |-> "EOF", dm |-> "lit:EOF"],
      [c |-> 1, op |-> "<<",  w |-> "E",      wm |-> <<"lit:E">>, body |-> "a $v b\n", bm |-> <<"lit:a ", "pe[", "name:v", "]pe", "lit: b\n">>, dl |-> "E", dm |-> "lit:E"],
      [c |-> 1, op |-> "<<",  w |-> "E",      wm |-> <<"lit:E">>, body |-> "$(a) `b`\n",
